@@ -28,6 +28,18 @@
 
 #include "assert.h"
 
+//! Verification hook (off by default): with TBOX_VERIF_SIM defined and AddressSanitizer
+//! present, blocks parked on the free list are poisoned so that touching a freed pooled
+//! object is reported instead of silently reading recycled storage.
+#if defined(TBOX_VERIF_SIM) && defined(__SANITIZE_ADDRESS__)
+# include <sanitizer/asan_interface.h>
+# define TBOX_VERIF_POOL_POISON(ptr, size)   ASAN_POISON_MEMORY_REGION((ptr), (size))
+# define TBOX_VERIF_POOL_UNPOISON(ptr, size) ASAN_UNPOISON_MEMORY_REGION((ptr), (size))
+#else
+# define TBOX_VERIF_POOL_POISON(ptr, size)   ((void)0)
+# define TBOX_VERIF_POOL_UNPOISON(ptr, size) ((void)0)
+#endif
+
 namespace tbox {
 
 /**
@@ -82,6 +94,7 @@ class ObjectPool {
     ~ObjectPool() {
         //! 释放掉所有的空闲块
         while (free_header_ != nullptr) {
+            TBOX_VERIF_POOL_UNPOISON(free_header_, sizeof(Block));
             auto next = free_header_->next;
             ::free(free_header_);
             free_header_ = next;
@@ -103,6 +116,7 @@ class ObjectPool {
             block = reinterpret_cast<Block*>(malloc(sizeof(Block)));
         } else {
             //! 直接从空闲块链表取出一块
+            TBOX_VERIF_POOL_UNPOISON(block, sizeof(Block));
             free_header_ = block->next;
             --free_number_;
         }
@@ -136,6 +150,8 @@ class ObjectPool {
 
             if (free_number_ > stat_.peak_free_number)
                 stat_.peak_free_number = free_number_;
+
+            TBOX_VERIF_POOL_POISON(block, sizeof(Block));
         } else {
             //! 否则就直接释放掉
             ::free(block);
